@@ -256,7 +256,7 @@ def _filelist_total(path: os.PathLike) -> Tuple[int, List[str]]:
     filelist = []
     if path.is_dir():
         for item in path.iterdir():
-            size, paths = filelist_total(item)
+            size, paths = _filelist_total(item)
             total += size
             filelist.extend(paths)
     return total, sorted(filelist)
